@@ -9,19 +9,24 @@ def _steps(lines):
     return n
 
 def _extra(lines, verdicts):
-    ops = sum(max(0, len(ln.split("|")[0].split()) - 4) for ln in lines)
+    ops = sum(max(0, len(ln.split("|")[0].split()) - 4) for ln in lines if not ln.startswith("Pb "))
     return {
-        "history_steps_compared": _steps(lines),
+        "history_steps_compared": _steps([ln for ln in lines if not ln.startswith("Pb ")]),
         "history_ops": ops,
-        "histories": len(lines),
+        "histories": sum(1 for ln in lines if not ln.startswith("Pb ")),
+        "payload_decode_cases": sum(1 for ln in lines if ln.startswith("Pb ")),
         "learn_rejected_steps": sum(ln.count(" rWrongTokenRange~") + ln.count(" rShardNum~") for ln in lines),
         "maintenance_steps": sum(ln.count(" m~") for ln in lines),
+        "byte_payload_ops_in_histories": sum(ln.split("|")[0].count(" B/") for ln in lines),
+        "payload_decode_outcomes": {t: sum(1 for ln in lines if ln.startswith("Pb ") and ln.split("|", 1)[1].strip().startswith(t))
+                                    for t in ("a:", "rDeserialization", "rWrongTokenRange", "rShardNum", "none")},
         "refresh_ops_through_cluster_state": sum(ln.split("|")[0].count(" R/") for ln in lines),
     }
 
 # per-kind floors (quick, thorough): the evidence must not claim a generator part that did not run
 KIND_FLOORS = {"Hs": (7, 7), "Hx": (17080, 188145), "Hm": (17080, 188145), "Ha": (4913, 83521),
-               "Hr": (2000, 10000), "Hi": (2000, 10000), "Hl": (2000, 10000), "Hd": (2000, 10000)}
+               "Hr": (2000, 10000), "Hi": (2000, 10000), "Hl": (2000, 10000), "Hd": (2000, 10000),
+               "Ht": (20736, 248832), "Pb": (90000, 450000)}
 
 def _post(lines, verdicts):
     import os, sys
@@ -40,21 +45,31 @@ def _post(lines, verdicts):
         if kinds.get(k, 0) < fl[idx]:
             out.append(("diff", f"(generator part {k})", f"diff coverage-floor kind={k} got={kinds.get(k, 0)} expected>={fl[idx]}"))
     # the tie must really have exercised what the evidence claims
-    steps = _steps(lines)
+    steps = _steps([ln for ln in lines if not ln.startswith("Pb ")])
     r_ops = sum(ln.split("|")[0].count(" R/") for ln in lines)
     maint = sum(ln.count(" m~") for ln in lines)
     rej = sum(ln.count(" rWrongTokenRange~") + ln.count(" rShardNum~") for ln in lines)
     unk = sum(1 for ln in lines if "~1[" in ln)
+    b_ops = sum(ln.split("|")[0].count(" B/") for ln in lines)
+    pb = {}
+    for ln in lines:
+        if ln.startswith("Pb "):
+            t = ln.split("|", 1)[1].strip()[:2]
+            pb[t] = pb.get(t, 0) + 1
+    for tag, need in (("a:", (10000, 50000)), ("rD", (10000, 50000)), ("rW", (5000, 25000)), ("rS", (2000, 10000)), ("no", (50, 250))):
+        if pb.get(tag, 0) < need[idx]:
+            out.append(("diff", f"(coverage Pb {tag})", f"diff coverage-floor Pb-outcome={tag} got={pb.get(tag, 0)} expected>={need[idx]}"))
     for name, got, need in (("steps", steps, (400000, 3000000)[idx]), ("refresh-through-ClusterState", r_ops, (20000, 100000)[idx]),
                             ("maintenance-steps", maint, (50000, 400000)[idx]), ("refused-payloads", rej, (5000, 50000)[idx]),
-                            ("histories-with-unknown-replicas", unk, (2000, 10000)[idx])):
+                            ("histories-with-unknown-replicas", unk, (2000, 10000)[idx]),
+                            ("byte-payload-ops-in-histories", b_ops, (30000, 150000)[idx])):
         if got < need:
             out.append(("diff", f"(coverage {name})", f"diff coverage-floor {name} got={got} expected>={need}"))
     return out
 
 SPEC = {
     "pid": "C15",
-    "coq_targets": ["Props/C15.vo", "Extract/ExC15.vo"],
+    "coq_targets": ["Props/C15.vo", "Extract/ExC15.vo"],   # depend on Model/Cql.vo (C01) for the read primitives
     "bin": "c15",
     # --n = number of seeded random histories; the exhaustive parts are always generated
     "sizes": {"quick": 12000, "thorough": 60000},
@@ -70,8 +85,13 @@ SPEC = {
              "universe and over full i64 with ScyllaDB-style equal splits, neighbours of used bounds, unknown replicas, removed / "
              "recreated nodes (Hd: also with datacenter change), schema changes, several tables; refreshes go through "
              "ClusterState::perform_tablets_maintenance (R ops) or straight to TabletsInfo::perform_maintenance (M ops, a share with "
-             "arguments the real caller would not produce). non-trivial = histories with at least 2 steps; distinct = distinct case lines"),
-    "nontrivial": lambda ln: len(ln.split("|")[0].split()) >= 6,
+             "arguments the real caller would not produce: inconsistent / overlapping removed+recreated+current, duplicate keys); "
+             "Ht all histories of length 4 (quick) / 5 (thorough) over 12 letters on three tables (one not in any schema) with schemas "
+             "that keep / drop / de-tablet / forget tables; a fifth of the random payload events are byte strings (B ops: valid "
+             "encodings with 0-2 corruptions); Pb RawTablet::from_custom_payload alone on 8 generated/corrupted byte strings per random "
+             "history (truncation, trailing bytes, bit flips, rewritten length/count fields incl. -1/-2/0/MAX/MIN, short uuid/shard, "
+             "missing fields, null list, trash, absent key), decoded content and error class compared exactly. non-trivial = histories with at least 2 steps; distinct = distinct case lines"),
+    "nontrivial": lambda ln: ln.startswith("Pb ") or len(ln.split("|")[0].split()) >= 6,
     "trusted_base": [
         "spec_step / spec_entry / spec_lookup / restrict_dc (coq/Model/Tablets.v PART 2) are the property text transcribed",
         "hook scylla::routing::locator::verif_tablets (pass-through to RawTablet::from_custom_payload, Tablet::from_raw_tablet, "
@@ -82,9 +102,9 @@ SPEC = {
     ],
     "assumptions": [
         "payload bounds are i64 values (Forall op_i64 hist): they are decoded from 8 bytes",
-        "the payload is modelled after CQL deserialisation (tuple<bigint,bigint,list<tuple<uuid,int>>>); malformed byte strings are C08/C17 territory",
+        "byte payloads: the typed deserialisers of tuple<bigint,bigint,list<tuple<uuid,int>>> are modelled in coq/Model/TabletsPayload.v on top of the read primitives of coq/Model/Cql.v; only the error CLASS (Deserialization / WrongTokenRange / ShardNum) is observable through the hook, the leaf kind is not compared",
     ],
-    "min_cases": {"quick": 45000, "thorough": 480000},
+    "min_cases": {"quick": 160000, "thorough": 1200000},
     "post": _post,
     "extra_coverage": _extra,
 }
